@@ -17,4 +17,5 @@ func genAll(repo string) {
 	genBlockParse(repo)
 	genLabelIndex(repo)
 	genLocks(repo)
+	genAnnSync(repo)
 }
